@@ -301,6 +301,19 @@ var corpus = []scripted{
 			h.goodSuffix()
 		})
 	}},
+	{"F24: a Ping waits, Close, another Ping before ReadSlices has seen the close", baseOpts(), func(h *hist) {
+		h.quiet(func() {
+			h.sc.budgetIn = 0
+			h.connectQuiet()
+			h.sc.opts.lossRate = 1000 // the PINGRESP is withheld
+			h.ping()
+			h.close()
+			h.ping()
+			h.subscribe(1, []string{"a/b"})
+			h.doRead()
+			h.ping()
+		})
+	}},
 	{"big message pending at Close", func() seqOpts { o := baseOpts(); o.bufSize = 32; return o }(), func(h *hist) {
 		h.quiet(func() {
 			h.sc.budgetIn = 0
